@@ -17,7 +17,14 @@ import Rink.Model.Eval
 namespace Rink.Spec
 open Rink Rink.Eval Rink.Dim
 
-def CtxCanonical (ctx : Ctx) : Prop := ∀ name n, ctx.lookup name = some n → Canonical n.unit
+def SubstCanonical (s : Substance) : Prop :=
+  Canonical s.amount.unit ∧ ∀ x ∈ s.props, Canonical x.2.input.unit ∧ Canonical x.2.output.unit
+
+/-- every number and every substance property the database hands out has a canonical
+dimensionality -/
+def CtxCanonical (ctx : Ctx) : Prop :=
+  (∀ name n, ctx.lookup name = some n → Canonical n.unit) ∧
+  (∀ name s, ctx.reg.substance name = some s → SubstCanonical s)
 
 /-! ### the algebra of the four unit-transforming operations -/
 
@@ -205,6 +212,58 @@ theorem applyFunc_canonical (f : Func) (args : List Number) (x : Number)
   · rw [h1]; exact hargs a ha
   · exact root_canonical' a x 2 (hargs a ha) h1
 
+theorem getLoop_canonical (amount : Number) (name : String) (props : List (String × Property)) (n : Number)
+    (ha : Canonical amount.unit) (hp : ∀ x ∈ props, Canonical x.2.input.unit ∧ Canonical x.2.output.unit)
+    (h : Substance.getLoop amount name props = .ok n) : Canonical n.unit := by
+  induction props with
+  | nil => simp [Substance.getLoop] at h
+  | cons x xs ih =>
+    obtain ⟨k, p⟩ := x
+    have hx := hp (k, p) (by simp)
+    simp only [Substance.getLoop] at h
+    split at h
+    · cases hd : Number.div p.input amount with
+      | ok input =>
+        simp only [hd] at h
+        split at h
+        · exact div_canonical _ _ _ hx.2 (div_canonical _ _ _ hx.1 ha hd) h
+        · cases h
+      | err c => simp [hd] at h
+      | panic s => simp [hd] at h
+      | unsupported s => simp [hd] at h
+    · split at h
+      · cases hd : Number.div p.output amount with
+        | ok output =>
+          simp only [hd] at h
+          split at h
+          · exact div_canonical _ _ _ hx.1 (div_canonical _ _ _ hx.2 ha hd) h
+          · cases h
+        | err c => simp [hd] at h
+        | panic s => simp [hd] at h
+        | unsupported s => simp [hd] at h
+      · exact ih (fun y hy => hp y (by simp [hy])) h
+
+theorem get_canonical (s : Substance) (name : String) (n : Number) (hs : SubstCanonical s)
+    (h : s.get name = .ok n) : Canonical n.unit := by
+  unfold Substance.get at h
+  split at h
+  · cases hl : s.props.lookup name with
+    | none => simp [hl] at h
+    | some p =>
+      simp only [hl] at h
+      have hmem : ∃ k, (k, p) ∈ s.props := by
+        have := List.lookup_eq_some_iff.mp hl
+        obtain ⟨l1, l2, h1, _⟩ := this
+        exact ⟨name, by rw [h1]; simp⟩
+      obtain ⟨k, hk⟩ := hmem
+      have hp := hs.2 (k, p) hk
+      cases hd : Number.div (Number.mul s.amount p.output) p.input with
+      | ok v => simp only [hd] at h; cases h; exact div_canonical _ _ _ (mul_canonical _ _ hs.1 hp.2) hp.1 hd
+      | err c => simp [hd] at h
+      | panic s => simp [hd] at h
+      | unsupported s => simp [hd] at h
+  · exact getLoop_canonical _ _ _ _ hs.1 hs.2 h
+
 /-! ### the main theorem: induction over the whole expression language -/
 
 mutual
@@ -215,7 +274,7 @@ theorem eval_canonical (ctx : Ctx) (hc : CtxCanonical ctx) :
     split at h
     · cases h
     · split at h
-      · rename_i v hv; cases h; exact hc name _ hv
+      · rename_i v hv; cases h; exact hc.1 name _ hv
       · split at h <;> cases h
   | .quote s, n, h => by simp only [evalExpr] at h; cases h; exact baseUnit_canonical s
   | .const v, n, h => by simp only [evalExpr] at h; cases h; exact nil_canonical
@@ -261,7 +320,7 @@ theorem eval_canonical (ctx : Ctx) (hc : CtxCanonical ctx) :
           split at h
           · cases h
           · cases h
-            exact mul_canonical _ _ (eval_canonical ctx hc e a he) (hc _ _ hs)
+            exact mul_canonical _ _ (eval_canonical ctx hc e a he) (hc.1 _ _ hs)
         · cases h
     | err c => simp [he] at h
     | panic s => simp [he] at h
@@ -269,9 +328,43 @@ theorem eval_canonical (ctx : Ctx) (hc : CtxCanonical ctx) :
   | .mul es, n, h => by
     simp only [evalExpr] at h
     exact evalMul_canonical ctx hc es Number.one n nil_canonical h
-  | .ofProp _ e, n, h => by
+  | .ofProp p (.unit name), n, h => by
     simp only [evalExpr] at h
-    cases he : evalExpr ctx e <;> simp [he] at h
+    split at h
+    · cases h
+    · split at h
+      · cases h
+      · split at h
+        · rename_i s hs; exact get_canonical s p n (hc.2 name s hs) h
+        · split at h <;> cases h
+  | .ofProp p (.mul es), n, h => by
+    simp only [evalExpr] at h
+    obtain ⟨⟨amount, sub⟩, hf, h⟩ := (Outcome.bind_eq_ok _ _ _).mp h
+    have hfc := evalFactors_canonical ctx hc es Number.one none amount sub nil_canonical (by intro s hs; cases hs) hf
+    cases sub with
+    | none => simp at h
+    | some s =>
+      simp only at h
+      have hsc := hfc.2 s rfl
+      exact get_canonical { s with amount := Number.mul s.amount amount } p n ⟨mul_canonical _ _ hsc.1 hfc.1, hsc.2⟩ h
+  | .ofProp _ (.quote _), n, h => by simp [evalExpr] at h
+  | .ofProp _ (.const _), n, h => by simp [evalExpr] at h
+  | .ofProp _ (.date _), n, h => by simp [evalExpr] at h
+  | .ofProp _ (.binop op l r), n, h => by
+    simp only [evalExpr] at h
+    obtain ⟨_, _, h⟩ := (Outcome.bind_eq_ok _ _ _).mp h; cases h
+  | .ofProp _ (.unary op e), n, h => by
+    simp only [evalExpr] at h
+    obtain ⟨_, _, h⟩ := (Outcome.bind_eq_ok _ _ _).mp h; cases h
+  | .ofProp _ (.ofProp q e), n, h => by
+    simp only [evalExpr] at h
+    obtain ⟨_, _, h⟩ := (Outcome.bind_eq_ok _ _ _).mp h; cases h
+  | .ofProp _ (.call f args), n, h => by
+    simp only [evalExpr] at h
+    obtain ⟨_, _, h⟩ := (Outcome.bind_eq_ok _ _ _).mp h; cases h
+  | .ofProp _ (.error m), n, h => by
+    simp only [evalExpr] at h
+    obtain ⟨_, _, h⟩ := (Outcome.bind_eq_ok _ _ _).mp h; cases h
   | .call f args, n, h => by
     simp only [evalExpr] at h
     cases ha : evalArgs ctx args with
@@ -293,6 +386,65 @@ theorem evalMul_canonical (ctx : Ctx) (hc : CtxCanonical ctx) :
     | err c => simp [he] at h
     | panic s => simp [he] at h
     | unsupported s => simp [he] at h
+
+theorem evalFactors_canonical (ctx : Ctx) (hc : CtxCanonical ctx) :
+    ∀ (es : List Expr) (acc : Number) (sub : Option Substance) (amount : Number) (sub' : Option Substance),
+      Canonical acc.unit → (∀ s, sub = some s → SubstCanonical s) →
+      evalFactors ctx acc sub es = .ok (amount, sub') →
+      Canonical amount.unit ∧ ∀ s, sub' = some s → SubstCanonical s
+  | [], acc, sub, amount, sub', hacc, hsub, h => by
+    simp only [evalFactors] at h; cases h; exact ⟨hacc, hsub⟩
+  | .unit name :: es, acc, sub, amount, sub', hacc, hsub, h => by
+    simp only [evalFactors] at h
+    split at h
+    · cases h
+    · split at h
+      · rename_i v hv
+        exact evalFactors_canonical ctx hc es _ sub amount sub' (mul_canonical _ _ hacc (hc.1 name v hv)) hsub h
+      · split at h
+        · rename_i s hs
+          cases sub with
+          | none =>
+            simp only at h
+            exact evalFactors_canonical ctx hc es acc (some s) amount sub' hacc (by intro s' hs'; cases hs'; exact hc.2 name s hs) h
+          | some _ => simp at h
+        · split at h <;> cases h
+  | .quote q :: es, acc, sub, amount, sub', hacc, hsub, h => by
+    simp only [evalFactors] at h
+    obtain ⟨v, hv, h⟩ := (Outcome.bind_eq_ok _ _ _).mp h
+    exact evalFactors_canonical ctx hc es _ sub amount sub' (mul_canonical _ _ hacc (eval_canonical ctx hc _ v hv)) hsub h
+  | .const c :: es, acc, sub, amount, sub', hacc, hsub, h => by
+    simp only [evalFactors] at h
+    obtain ⟨v, hv, h⟩ := (Outcome.bind_eq_ok _ _ _).mp h
+    exact evalFactors_canonical ctx hc es _ sub amount sub' (mul_canonical _ _ hacc (eval_canonical ctx hc _ v hv)) hsub h
+  | .date d :: es, acc, sub, amount, sub', hacc, hsub, h => by
+    simp only [evalFactors] at h
+    obtain ⟨v, hv, h⟩ := (Outcome.bind_eq_ok _ _ _).mp h
+    exact evalFactors_canonical ctx hc es _ sub amount sub' (mul_canonical _ _ hacc (eval_canonical ctx hc _ v hv)) hsub h
+  | .binop op l r :: es, acc, sub, amount, sub', hacc, hsub, h => by
+    simp only [evalFactors] at h
+    obtain ⟨v, hv, h⟩ := (Outcome.bind_eq_ok _ _ _).mp h
+    exact evalFactors_canonical ctx hc es _ sub amount sub' (mul_canonical _ _ hacc (eval_canonical ctx hc _ v hv)) hsub h
+  | .unary op e :: es, acc, sub, amount, sub', hacc, hsub, h => by
+    simp only [evalFactors] at h
+    obtain ⟨v, hv, h⟩ := (Outcome.bind_eq_ok _ _ _).mp h
+    exact evalFactors_canonical ctx hc es _ sub amount sub' (mul_canonical _ _ hacc (eval_canonical ctx hc _ v hv)) hsub h
+  | .mul ms :: es, acc, sub, amount, sub', hacc, hsub, h => by
+    simp only [evalFactors] at h
+    obtain ⟨v, hv, h⟩ := (Outcome.bind_eq_ok _ _ _).mp h
+    exact evalFactors_canonical ctx hc es _ sub amount sub' (mul_canonical _ _ hacc (eval_canonical ctx hc _ v hv)) hsub h
+  | .ofProp q e :: es, acc, sub, amount, sub', hacc, hsub, h => by
+    simp only [evalFactors] at h
+    obtain ⟨v, hv, h⟩ := (Outcome.bind_eq_ok _ _ _).mp h
+    exact evalFactors_canonical ctx hc es _ sub amount sub' (mul_canonical _ _ hacc (eval_canonical ctx hc _ v hv)) hsub h
+  | .call f args :: es, acc, sub, amount, sub', hacc, hsub, h => by
+    simp only [evalFactors] at h
+    obtain ⟨v, hv, h⟩ := (Outcome.bind_eq_ok _ _ _).mp h
+    exact evalFactors_canonical ctx hc es _ sub amount sub' (mul_canonical _ _ hacc (eval_canonical ctx hc _ v hv)) hsub h
+  | .error m :: es, acc, sub, amount, sub', hacc, hsub, h => by
+    simp only [evalFactors] at h
+    obtain ⟨v, hv, h⟩ := (Outcome.bind_eq_ok _ _ _).mp h
+    exact evalFactors_canonical ctx hc es _ sub amount sub' (mul_canonical _ _ hacc (eval_canonical ctx hc _ v hv)) hsub h
 
 theorem evalArgs_canonical (ctx : Ctx) (hc : CtxCanonical ctx) :
     ∀ (es : List Expr) (vs : List Number), evalArgs ctx es = .ok vs → ∀ a ∈ vs, Canonical a.unit
